@@ -1,3 +1,5 @@
 SPECIFICATION Spec
-INVARIANTS DerivedIdParses TableConsistent
+CONSTANTS
+  FirstP2p = FALSE
+INVARIANTS DerivedIdParses TableConsistent MaddrRule
 CHECK_DEADLOCK FALSE
